@@ -216,6 +216,12 @@ func (d *DiagDense) DiagFrom(m Matrix) {
 		}
 	case RawTriBander:
 		mat := r.RawTriBand()
+		if mat.Diag == blas.Unit {
+			for i := 0; i < n; i++ {
+				d.mat.Data[i*d.mat.Inc] = 1
+			}
+			return
+		}
 		data := mat.Data
 		if mat.Uplo == blas.Lower {
 			data = data[mat.K:]
